@@ -35,6 +35,7 @@ pub fn cases(tier: &str, seed: u64, focus: &str) -> Vec<PlanCase> {
             b"Aa".to_vec(), b"A1".to_vec(), b"a1".to_vec(), b"A!".to_vec(), b"{|}~".to_vec(), b">*Aa>>1".to_vec(), b"A a0!\x80".to_vec(),
             b"AAAa".to_vec(), b"123A".to_vec(), b"12a".to_vec(), b"ABC1234567".to_vec(), b"\x80A".to_vec(), b"\xE1a1".to_vec(), b"*>\rA0 ".to_vec(),
             b"A".to_vec(), b"a".to_vec(), b"1".to_vec(), b"!".to_vec(), b"\xFF".to_vec(), b"Hello, World 1".to_vec(),
+            b"0123\xc8\xc9\xca".to_vec(), b"ABCDEFGHIabcdefghi".to_vec(), b">*>*>*>*>~".to_vec(), b"12\xc8".to_vec(),
         ];
         let lens: Vec<usize> = if thorough { vec![1, 2, 4, 8, 14, 16, 32, 64, 128, 249, 250, 251, 512, 1024, 1555, 1556, 1557, 2048, 3000, 3116, 3200] } else { vec![1, 2, 14, 64, 250, 600, 1556, 3000] };
         for p in &patterns {
@@ -42,8 +43,8 @@ pub fn cases(tier: &str, seed: u64, focus: &str) -> Vec<PlanCase> {
                 let s = alternation(p, n);
                 let cfgs: Vec<(u8, Vec<SymbolSize>)> = vec![
                     (63, default.clone()),
-                    (63, tiny.clone()),
                     (63, largest.clone()),
+                    (63, tiny.clone()),
                     ((63 & !(1 << rng.below(6))) as u8, all.clone()),
                     ((1 << rng.below(6)) | (1 << rng.below(6)), default.clone()),
                 ];
@@ -110,6 +111,31 @@ pub fn cases(tier: &str, seed: u64, focus: &str) -> Vec<PlanCase> {
         let s = random_runs(&mut rng, n);
         let list = g.list(&mut rng, &s, false);
         out.push(PlanCase { stratum: "random", input: s, modes: g.modes(&mut rng, "C18"), list });
+    }
+    // a Base256 run around the two-byte length threshold, a break, then a run of every length (lands on every capacity)
+    for hn in [248usize, 249, 250, 251] {
+        for brk in [&b"a"[..], b"", b"A"] {
+            for (class, maxn) in [(Class::Digits, 70usize), (Class::EdifactPunct, 44), (Class::Upper, 40)] {
+                let stepn = if thorough { 1 } else { 2 };
+                for n in (0..=maxn).step_by(stepn) {
+                    let mut s = class_string(&mut rng, Class::High, hn);
+                    s.extend_from_slice(brk);
+                    s.extend(class_string(&mut rng, class, n));
+                    let list = if rng.chance(1, 2) { default.clone() } else { all.clone() };
+                    out.push(PlanCase { stratum: "b256Threshold", input: s, modes: 63, list });
+                }
+            }
+        }
+    }
+    // X12 triples filling a symbol exactly plus one or two more characters, on lists with capacity pairs differing by one
+    for m in 1..=45usize {
+        for tail in [&b"Z"[..], b"12", b"a", b"", b"ZZ"] {
+            let mut s: Vec<u8> = b"A*>".iter().cycle().take(3 * m).copied().collect();
+            s.extend_from_slice(tail);
+            for list in [all.clone(), default.clone()] {
+                out.push(PlanCase { stratum: "x12Exact", input: s.clone(), modes: if rng.chance(2, 3) { 63 } else { 9 }, list });
+            }
+        }
     }
     out
 }
